@@ -85,11 +85,11 @@ macro_rules! suite {
         pub fn $flow(
             pw: &[u8],
             cred: &[u8],
-            ctx: &[u8],
-            idu: &[u8],
-            ids: &[u8],
+            ctx: Option<&[u8]>,
+            idu: Option<&[u8]>,
+            ids: Option<&[u8]>,
             rng: &mut TapeRng,
-            ksf: &$ksf,
+            ksf: Option<&$ksf>,
         ) -> Option<(
             ClientRegistrationFinishResult<$name>,
             ClientLoginFinishResult<$name>,
@@ -98,10 +98,10 @@ macro_rules! suite {
         )> {
             let setup = ServerSetup::<$name>::new(rng);
             let _ = setup.keypair().public().serialize();
-            let ids = Identifiers { client: Some(idu), server: Some(ids) };
+            let ids = Identifiers { client: idu, server: ids };
             let r = ClientRegistration::<$name>::start(rng, pw).ok()?;
             let s = ServerRegistration::<$name>::start(&setup, r.message, cred).ok()?;
-            let f = r.state.finish(rng, pw, s.message, ClientRegistrationFinishParameters::new(ids, Some(ksf))).ok()?;
+            let f = r.state.finish(rng, pw, s.message, ClientRegistrationFinishParameters::new(ids, ksf)).ok()?;
             let file = ServerRegistration::<$name>::finish(f.message.clone());
             let l = ClientLogin::<$name>::start(rng, pw).ok()?;
             let sl = ServerLogin::start(
@@ -110,10 +110,10 @@ macro_rules! suite {
                 Some(file),
                 l.message,
                 cred,
-                ServerLoginStartParameters { context: Some(ctx), identifiers: ids },
+                ServerLoginStartParameters { context: ctx, identifiers: ids },
             )
             .ok()?;
-            let cf = l.state.finish(pw, sl.message, ClientLoginFinishParameters::new(Some(ctx), ids, Some(ksf))).ok()?;
+            let cf = l.state.finish(pw, sl.message, ClientLoginFinishParameters::new(ctx, ids, ksf)).ok()?;
             let sf = sl.state.finish(cf.message.clone()).ok()?;
             Some((f, cf, sf, setup))
         }
